@@ -350,6 +350,9 @@ func (e *env) checkSelected(what string, v2 bool, sel []types.SiacoinOutputID, u
 		case e.isReservedBefore(id, t):
 			e.fail("fund-selects-reserved", "%s selected output %d, which is reserved by an outstanding funded transaction", what, e.aid(id))
 		case spent[id]:
+			if _, isChild := e.creatorV2(id); isChild {
+				e.stats["fund:selected-pool-created-output-spent-by-a-later-pool-transaction"]++
+			}
 			e.fail("fund-selects-pool-spent", "%s selected output %d, which a pool transaction already spends", what, e.aid(id))
 		case !inLedger:
 			e.fail("fund-selects-unknown-output", "%s selected output %d, which is not a confirmed unspent output of the wallet (useUnconfirmed=%v)", what, e.aid(id), unc)
@@ -533,6 +536,16 @@ func (e *env) finishFund(o opSpec, amount types.Currency, or *oracle, raw fundRa
 		}
 	}
 	if o.Unc {
+		// a pool-created wallet output that a later pool transaction spends and that nobody
+		// reserves any more: only the deletion in tpoolUtxos keeps it from being selected
+		for id := range or.spent {
+			if pv2, ok := e.creatorV2(id); ok && pv2 == o.V2 && !e.isReservedBefore(id, t) {
+				if _, confirmed := e.ledger[id]; !confirmed {
+					e.stats["fund:useUnconfirmed-with-unreserved-pool-spent-unconfirmed-output"]++
+					break
+				}
+			}
+		}
 		// the branch "unconfirmed candidates must be unreserved" is exercised when a
 		// same-version unconfirmed output is held by an outstanding request at this call
 		for id := range or.created {
